@@ -171,8 +171,13 @@ func c07ReuseCase(c *core.Ctx, idx int) {
 	boom := errors.New("boom")
 	for t := 0; t < n; t++ {
 		kind := core.Pick(r, kinds)
-		plan = append(plan, kind)
 		batch := (idx+t)%3 == 2
+		// half of the cases begin with a transaction whose function panics (through Db.Batch or Db.Update), followed by
+		// one that commits
+		if (idx/3)%2 == 0 && t < 2 {
+			kind, batch = []string{"caller panics after registering", "commits"}[t], (idx/6)%2 == 0 && t == 0
+		}
+		plan = append(plan, kind)
 		run := db.Update
 		if batch {
 			run = db.Batch
